@@ -67,9 +67,10 @@ def run_property(prop, tier, seed, replay=None):
             if tier not in m.get('tiers', ('quick', 'thorough')):
                 continue
             cfg = m.get('cfg_' + tier, m.get('cfg'))
+            t_m = time.time()
             r = vlib.tlc_model(os.path.join(vlib.VERIF, 'mc'), m['module'], cfg, timeout=m.get('timeout', 1500),
                                extra=m.get('extra', ()))
-            cov['model_runs'][cfg or m['module']] = dict(states=r['states'], distinct=r['distinct'], ok=r['ok'])
+            cov['model_runs'][cfg or m['module']] = dict(states=r['states'], distinct=r['distinct'], ok=r['ok'], seconds=round(time.time() - t_m, 1))
             cov['states'] += r['distinct']
             cov['transitions'] += r['states']
             if not r['ok']:
@@ -99,6 +100,7 @@ def run_property(prop, tier, seed, replay=None):
                 continue
             if config not in [c.split(':')[0] for c in cov['configs']]:
                 cov['configs'].append(config)
+            t_w = time.time()
             r = vlib.run_trace_check(lines, module=w.get('module', 'TraceUrl'), config=config,
                                      tag='%s_%s_%s' % (prop, w['name'], config),
                                      exec_args=w.get('exec_args', ()), main=w.get('main', 'exec_main.cpp'),
@@ -118,6 +120,7 @@ def run_property(prop, tier, seed, replay=None):
             cov['workloads'].setdefault(w['name'], dict(events=0, executions=0))
             cov['workloads'][w['name']]['events'] += r['events']
             cov['workloads'][w['name']]['executions'] += r['execs']
+            cov['workloads'][w['name']]['seconds'] = round(cov['workloads'][w['name']].get('seconds', 0) + time.time() - t_w, 1)
             if len(cov['samples']) < 6:
                 cov['samples'] += r['samples'][:2]
             distinct |= r.get('distinct_keys', set())
